@@ -266,9 +266,14 @@ func buildAndVerify(vc vcase) VObs {
 		opts.RevocationCodeSigningValidator = ctxValidator{fx.rev}
 	}
 	v, err := verifier.NewVerifierWithOptions(fx.store, opts)
+	if err != nil && in.DN != nil {
+		// an identity list the model considers valid was refused at construction: nothing is verified (closed)
+		obs.Verdict, obs.Out, obs.ErrText = "fail", "nil", "construction refused: "+err.Error()
+		return obs
+	}
 	if err != nil {
 		// the concretisation is wrong (policy rejected): harness problem, not a verdict
-		panic(fmt.Sprintf("verifier construction failed for %+v: %v", in, err))
+		panic(fmt.Sprintf("verifier construction failed (identities %q stores %q): %v", fx.identities, fx.trustStores, err))
 	}
 
 	// ----- call -----------------------------------------------------------
